@@ -300,7 +300,9 @@ func (mm *MetricMap) receiveGauge(m *Metric, tagsKey string) {
 	if ok {
 		g, ok := v[tagsKey]
 		if ok {
-			if m.Timestamp > g.Timestamp {
+			// >= so that of several datapoints received at the same instant (the lines of
+			// one datagram share its timestamp) the last one received wins.
+			if m.Timestamp >= g.Timestamp {
 				g.Value = m.Value
 				g.Timestamp = m.Timestamp
 			}
